@@ -70,7 +70,7 @@ func c12TableOrder(w *World, r *Report) {
 		}
 	}
 	if gc == nil || mc == nil {
-		r.Fail("C12-a", name, "both table readers consulted", w.relFile(pr.Pos()), "partition.Read does not call both gpt.Read and mbr.Read")
+		c12ProbeTable(w, r, pr, gptRead, mbrRead)
 		return
 	}
 	giff, gnil := errNilEdge(pr, gc)
@@ -115,6 +115,115 @@ func c12TableOrder(w *World, r *Report) {
 		}
 		dom := edgeDominates(giff.Block(), gnil, ret.Block()) || (miff != nil && edgeDominates(miff.Block(), mnil, ret.Block()))
 		r.Check(dom, "C12-a", name, "success only from a reader's success", w.relFile(instrPos(ret)), "", "partition.Read can succeed although neither reader succeeded")
+	}
+}
+
+// c12ProbeTable: partition.Read written as an ordered table of probe closures and a loop. Decided when the shape is
+// exactly: closures that each return the results of one reader, stored at constant indices of one slice literal; a
+// range loop that calls the element and returns its table on the nil-error edge; every return after the loop an error.
+func c12ProbeTable(w *World, r *Report, pr, gptRead, mbrRead *ssa.Function) {
+	name := fnName(pr)
+	readerOf := func(cl *ssa.Function) *ssa.Function {
+		var found *ssa.Function
+		n := 0
+		for _, c := range calls(cl, false, func(ssa.CallInstruction) bool { return true }) {
+			if g := c.Common().StaticCallee(); g == gptRead || g == mbrRead {
+				found = g
+				n++
+			}
+		}
+		if n != 1 {
+			return nil
+		}
+		return found
+	}
+	idx := map[*ssa.Function]int64{}
+	var arr ssa.Value
+	oneArray := true
+	allInstrs(pr, func(ins ssa.Instruction) {
+		st, ok := ins.(*ssa.Store)
+		if !ok {
+			return
+		}
+		mc, ok := st.Val.(*ssa.MakeClosure)
+		if !ok {
+			return
+		}
+		cl, _ := mc.Fn.(*ssa.Function)
+		rd := readerOf(cl)
+		ia, isIA := st.Addr.(*ssa.IndexAddr)
+		if rd == nil || !isIA {
+			return
+		}
+		k, isC := constInt(ia.Index)
+		if !isC {
+			return
+		}
+		if arr != nil && arr != ia.X {
+			oneArray = false
+		}
+		arr = ia.X
+		idx[rd] = k
+	})
+	gi, gok := idx[gptRead]
+	mi, mok := idx[mbrRead]
+	if !gok || !mok {
+		reach := w.reachableFrom([]*ssa.Function{pr}, func(f *ssa.Function) bool { return true })
+		_, rg := reach[gptRead]
+		_, rm := reach[mbrRead]
+		if !rg || !rm {
+			// closures are not in the static call graph: look into the anonymous functions
+			for _, cl := range pr.AnonFuncs {
+				switch readerOf(cl) {
+				case gptRead:
+					rg = true
+				case mbrRead:
+					rm = true
+				}
+			}
+		}
+		if rg && rm {
+			r.Undecided("C12-a", name, "both table readers consulted", w.relFile(pr.Pos()), "partition.Read reaches gpt.Read and mbr.Read, but not by direct calls nor through an ordered table of probe closures: the probe order is not decided by this analysis")
+		} else {
+			r.Fail("C12-a", name, "both table readers consulted", w.relFile(pr.Pos()), "partition.Read does not call both gpt.Read and mbr.Read")
+		}
+		return
+	}
+	r.Check(oneArray && gi < mi, "C12-a", name, "GPT probe precedes the MBR probe in the probe table", w.relFile(pr.Pos()), fmt.Sprintf("indices %d < %d", gi, mi),
+		"the MBR reader is tried before the GPT reader: a GPT disk is reported through its protective MBR")
+	// the loop: a dynamic call whose nil-error edge returns its table; every other success return is absent
+	var dyn *ssa.Call
+	for _, c := range calls(pr, false, func(c ssa.CallInstruction) bool { return c.Common().StaticCallee() == nil && !c.Common().IsInvoke() }) {
+		if cc, ok := c.(*ssa.Call); ok && len(cycleThrough(cc.Block())) > 0 {
+			dyn = cc
+		}
+	}
+	if dyn == nil {
+		r.Undecided("C12-a", name, "probe loop", w.relFile(pr.Pos()), "the probe table is not consumed by a loop that calls its elements")
+		return
+	}
+	iff, nilIdx := errNilEdge(pr, dyn)
+	okRet := iff != nil
+	for _, ret := range returnsOf(pr) {
+		if classifyReturn(ret) == RetError {
+			continue
+		}
+		fromCall := false
+		for _, rt := range w.prov(ret.Results[0], provOpts{}).Roots {
+			if rt.Kind == RCall && rt.Call == ssa.CallInstruction(dyn) {
+				fromCall = true
+			}
+		}
+		if iff == nil || !edgeDominates(iff.Block(), nilIdx, ret.Block()) || !fromCall {
+			okRet = false
+		}
+	}
+	r.Check(okRet, "C12-a", name, "a probe's table is returned on its nil-error edge, and nothing else succeeds", w.relFile(dyn.Pos()), "",
+		"partition.Read can succeed other than by returning the table of the probe that just succeeded")
+	// the failing probe's edge stays in the loop (the next probe is tried), it does not return
+	if iff != nil {
+		r.Check(!blockLeadsToErrorReturn(iff.Block().Succs[1-nilIdx], 0), "C12-a", name, "a failing probe falls through to the next one", w.relFile(iff.Pos()), "",
+			"the first probe's error ends partition.Read: an MBR disk is never recognised")
 	}
 }
 
